@@ -1,6 +1,7 @@
 import VgiVerif.Model.C27
 import VgiVerif.Spec.C27
 import VgiVerif.Lemmas.Sticky
+import VgiVerif.Lemmas.StickyHistory
 /-
 C27 property theorems.  Helper lemmas in `namespace Aux`; the obligations are at the bottom.
 -/
@@ -51,7 +52,7 @@ theorem step_now (cfg : Cfg) (wk : Nat) (ident : Identity) (c : Nat) (W : World)
     (stepAction cfg wk ident c W rs a).1.env.now = W.env.now := by
   cases a with
   | «open» l ttl =>
-    simp only [stepAction]
+    simp only [stepAction, stepActionP]
     split
     · rfl
     · split
@@ -60,7 +61,7 @@ theorem step_now (cfg : Cfg) (wk : Nat) (ident : Identity) (c : Nat) (W : World)
         · rfl
         · split <;> rfl
   | close =>
-    simp only [stepAction]
+    simp only [stepAction, stepActionP]
     split <;> rfl
   | use => rfl
   | noop => rfl
@@ -70,7 +71,7 @@ theorem step_JE (cfg : Cfg) (wk : Nat) (ident : Identity) (c : Nat) (base : Opti
     JE c base ex (stepAction cfg wk ident c W rs a).1 (stepAction cfg wk ident c W rs a).2.1 := by
   cases a with
   | «open» l ttl =>
-    simp only [stepAction]
+    simp only [stepAction, stepActionP]
     split
     · exact h
     · split
@@ -97,7 +98,7 @@ theorem step_JE (cfg : Cfg) (wk : Nat) (ident : Identity) (c : Nat) (base : Opti
           · intro _
             exact ⟨_, mem_liveOf.mpr ⟨Reg.mem_insert.mpr (Or.inr rfl), rfl⟩, rfl⟩
   | close =>
-    simp only [stepAction]
+    simp only [stepAction, stepActionP]
     cases hsc : rs.sc with
     | none =>
       unfold JE at h ⊢
@@ -176,7 +177,7 @@ theorem resolve_spec {Wire : Type} [DecidableEq Wire] (C : Codec Wire) (cfg : Cf
       simp only
       -- the token opened: recover the envelope and its session id
       have htok : ∃ t, C.dec w = some t ∧ tokSid t = some sid := by
-        unfold openSessionToken at ho
+        unfold openSessionToken openSessionTokenP at ho
         cases hd : C.dec w with
         | none => simp [hd] at ho
         | some t =>
@@ -349,7 +350,7 @@ theorem step_OI (cfg : Cfg) (wk : Nat) (ident : Identity) (c : Nat) (R0 : Reg) (
   obtain ⟨ha, hd, he⟩ := h
   cases a with
   | «open» l ttl =>
-    simp only [stepAction]
+    simp only [stepAction, stepActionP]
     split
     · exact ⟨ha, hd, he⟩
     · rename_i hacc
@@ -368,7 +369,7 @@ theorem step_OI (cfg : Cfg) (wk : Nat) (ident : Identity) (c : Nat) (R0 : Reg) (
           · exact ⟨ha, hd, hins _⟩
           · exact ⟨ha, hd, hins _⟩
   | close =>
-    simp only [stepAction]
+    simp only [stepAction, stepActionP]
     cases hsc : rs.sc with
     | none => exact ⟨ha, hd, he⟩
     | some p =>
@@ -422,7 +423,7 @@ theorem run_draining_log (cfg : Cfg) (wk : Nat) (ident : Identity) (c : Nat) (sw
     have hstep : (stepAction cfg wk ident c W rs a).1.reg.draining = true ∧ ∀ sid, (stepAction cfg wk ident c W rs a).2.2 ≠ .opened sid := by
       cases a with
       | «open» l ttl =>
-        simp only [stepAction]
+        simp only [stepAction, stepActionP]
         split
         · exact ⟨hd, fun _ h => by cases h⟩
         · split
@@ -432,7 +433,7 @@ theorem run_draining_log (cfg : Cfg) (wk : Nat) (ident : Identity) (c : Nat) (sw
             · rename_i hdr
               simp [shapes.2.2.2.2.1, hd] at hdr
       | close =>
-        simp only [stepAction]
+        simp only [stepAction, stepActionP]
         cases hsc : rs.sc with
         | none => exact ⟨hd, fun _ h => by cases h⟩
         | some p =>
@@ -495,6 +496,180 @@ theorem serve_entries {Wire : Type} [DecidableEq Wire] (C : Codec Wire) (cfg : C
   | fresh => exact key _ rfl
   | resumed e0 => exact key _ rfl
 
+/-- `C27_view`, stated inside `Aux` for use in the history proof -/
+theorem C27_view_aux {Wire : Type} [DecidableEq Wire] (C : Codec Wire) (cfg : Cfg) (wk : Nat) (W : World) (v : View Wire)
+    (ident : Identity) (c : Nat) (script : List Action) (swallow : Bool)
+    (hseal : ∀ a ∈ script, SealFits cfg W.env.now a)
+    (hexp : ∀ e ∈ W.reg.entries, (∃ w, v.token = some w ∧ Designates C w e.sid) → expired e W.env.now = false)
+    (hok : ViewOK C W.reg c v) :
+    ViewOK C (viewCall C cfg wk W v ident c script swallow).1.reg c (viewCall C cfg wk W v ident c script swallow).2.1 := by
+  have h := view_step C cfg wk W v ident c script swallow True hseal (fun _ => hexp) hok.1 (fun _ => hok.2)
+  exact ⟨h.1, h.2 trivial⟩
+
+/-! #### histories of several views -/
+
+theorem viewOK_congr {Wire : Type} (C : Codec Wire) (r r' : Reg) (c : Nat) (v : View Wire)
+    (h : ∀ x, x ∈ liveOf r' c ↔ x ∈ liveOf r c) (hok : ViewOK C r c v) : ViewOK C r' c v := by
+  refine ⟨fun x hx => hok.1 x ((h x).mp hx), fun w hw => ?_⟩
+  obtain ⟨x, hx, hd⟩ := hok.2 w hw
+  exact ⟨x, (h x).mpr hx, hd⟩
+
+/-- a call through view `c` keeps the registry-wide invariants and touches only sessions of `c` -/
+theorem viewCall_frame {Wire : Type} [DecidableEq Wire] (C : Codec Wire) (cfg : Cfg) (wk : Nat) (W : World) (v : View Wire)
+    (ident : Identity) (c : Nat) (script : List Action) (swallow : Bool)
+    (hreg : RegInv W) (hst : NoStale C W.reg c v) (hb : W.env.sidCtr + script.length ≤ 256 ^ 12) :
+    RegInv (viewCall C cfg wk W v ident c script swallow).1 ∧
+    (∀ x ∈ W.reg.entries, x.owner ≠ c → x ∈ (viewCall C cfg wk W v ident c script swallow).1.reg.entries) ∧
+    (∀ x ∈ (viewCall C cfg wk W v ident c script swallow).1.reg.entries, x ∈ W.reg.entries ∨ x.owner = c) := by
+  obtain ⟨hrs, hrc, hri, _⟩ := request_session v ident c
+  unfold viewCall serve
+  rcases resolve_spec C cfg W (v.request ident c) with ⟨hn, hr⟩ | ⟨w, hw, hr⟩ | ⟨w, t, sidB, sid, exx, e, hw, hd, hts, _, hf, hx, hr⟩ |
+      ⟨w, t, sidB, sid, exx, e, hw, hd, hts, _, _, hf, hx, _, hr⟩
+  · rw [hr]
+    simp only [hrc, hri]
+    have h0 : FR c W.reg W { accept := acceptOpens (v.request ident c).accept } :=
+      ⟨fun x hx _ => hx, fun x hx => Or.inl hx, fun sid l hs => by simp at hs⟩
+    have hJ := run_inv cfg wk ident c W.reg swallow script W _ hb hreg h0
+    generalize runScript cfg wk ident c swallow W { accept := acceptOpens (v.request ident c).accept } script = res at hJ
+    obtain ⟨W₂, rs, log, err⟩ := res
+    exact ⟨hJ.1, hJ.2.1, hJ.2.2.1⟩
+  · rw [hr]
+    exact ⟨hreg, fun x hx _ => hx, fun x hx => Or.inl hx⟩
+  · -- eviction is impossible: nothing in the registry has expired
+    have he := Reg.find_some hf
+    have := hreg.2.2 e he.1
+    rw [hx] at this; cases this
+  · rw [hr]
+    simp only [hrc, hri]
+    have he := Reg.find_some hf
+    have hvt : v.token = some w := by rw [← hrs]; exact hw
+    have hdes : Designates C w e.sid := ⟨t, hd, by rw [he.2]; exact hts⟩
+    have h0 : FR c W.reg W { sc := some (e.sid, e.state), accept := acceptOpens (v.request ident c).accept, lockHeld := some e.sid } := by
+      refine ⟨fun x hx _ => hx, fun x hx => Or.inl hx, fun sid' l hs x hx hxs => ?_⟩
+      simp only [Option.some.injEq, Prod.mk.injEq] at hs
+      obtain ⟨y, hy, hyd⟩ := hst w hvt
+      have hy' := mem_liveOf.mp hy
+      have : x = y := hreg.1 x hx y hy'.1 (by rw [hxs, ← hs.1]; exact designates_fun hdes hyd)
+      rw [this]; exact hy'.2
+    have hJ := run_inv cfg wk ident c W.reg swallow script W _ hb hreg h0
+    generalize runScript cfg wk ident c swallow W { sc := some (e.sid, e.state), accept := acceptOpens (v.request ident c).accept, lockHeld := some e.sid } script = res at hJ
+    obtain ⟨W₂, rs, log, err⟩ := res
+    exact ⟨hJ.1, hJ.2.1, hJ.2.2.1⟩
+
+/-- invariant of a history: every view is exact, and the registry-wide invariants hold -/
+def HInv {Wire : Type} (C : Codec Wire) (s : Sys Wire) : Prop :=
+  (∀ c, ViewOK C s.W.reg c (s.views c)) ∧ RegInv s.W
+
+theorem mem_reown {r : Reg} {c c' : Nat} {x : Entry} :
+    x ∈ (reown r c c').entries ↔ ∃ y ∈ r.entries, x = (if y.owner == c then { y with owner := c' } else y) := by
+  simp only [reown, List.mem_map]
+  constructor
+  · rintro ⟨y, hy, rfl⟩; exact ⟨y, hy, rfl⟩
+  · rintro ⟨y, hy, rfl⟩; exact ⟨y, hy, rfl⟩
+
+theorem step_HInv {Wire : Type} [DecidableEq Wire] (C : Codec Wire) (cfg : Cfg) (wk : Nat) (s : Sys Wire) (op : SysOp)
+    (hinv : HInv C s) (hok : OpOK cfg s op) : HInv C (s.step C cfg wk op) := by
+  obtain ⟨hviews, hreg⟩ := hinv
+  cases op with
+  | call c ident script swallow =>
+    obtain ⟨hseal, hb⟩ := hok
+    have hexp : ∀ e ∈ s.W.reg.entries, (∃ w, (s.views c).token = some w ∧ Designates C w e.sid) → expired e s.W.env.now = false :=
+      fun e he _ => hreg.2.2 e he
+    have hcaller := C27_view_aux C cfg wk s.W (s.views c) ident c script swallow hseal hexp (hviews c)
+    have hframe := viewCall_frame C cfg wk s.W (s.views c) ident c script swallow hreg (hviews c).2 hb
+    simp only [Sys.step]
+    refine ⟨fun c' => ?_, hframe.1⟩
+    by_cases hc : c' = c
+    · subst hc; simpa using hcaller
+    · simp only [if_neg hc]
+      refine viewOK_congr C s.W.reg _ c' (s.views c') (fun x => ?_) (hviews c')
+      rw [mem_liveOf, mem_liveOf]
+      constructor
+      · rintro ⟨hx, ho⟩
+        rcases hframe.2.2 x hx with h | h
+        · exact ⟨h, ho⟩
+        · exact absurd (ho.symm.trans h) hc
+      · rintro ⟨hx, ho⟩
+        exact ⟨hframe.2.1 x hx (fun h => hc (ho.symm.trans h)), ho⟩
+  | setDraining b =>
+    exact ⟨fun c => hviews c, hreg⟩
+  | handoff c c' =>
+    simp only [Sys.step]
+    split
+    · rename_i hg
+      obtain ⟨hne, hnew⟩ := hg
+      unfold isNewView at hnew
+      simp only [Bool.and_eq_true, Option.isNone_iff_eq_none, Bool.not_eq_true', List.any_eq_false, beq_iff_eq] at hnew
+      obtain ⟨htok', hown'⟩ := hnew
+      have hsid : ∀ y : Entry, (if y.owner == c then { y with owner := c' } else y).sid = y.sid := by
+        intro y; split <;> rfl
+      have hexpi : ∀ y : Entry, (if y.owner == c then { y with owner := c' } else y).expires = y.expires := by
+        intro y; split <;> rfl
+      refine ⟨fun d => ?_, ?_, ?_, ?_⟩
+      · -- the views
+        simp only [View.detach]
+        by_cases hd' : d = c'
+        · subst hd'
+          simp only [if_true]
+          refine ⟨fun x hx => ?_, fun w hw => ?_⟩
+          · obtain ⟨hx1, hx2⟩ := mem_liveOf.mp hx
+            obtain ⟨y, hy, rfl⟩ := mem_reown.mp hx1
+            have hyc : y.owner = c := by
+              by_cases h : y.owner = c
+              · exact h
+              · have : (y.owner == c) = false := by simpa using h
+                rw [this] at hx2
+                exact absurd hx2 (hown' y hy)
+            obtain ⟨w, hw, hdz⟩ := (hviews c).1 y (mem_liveOf.mpr ⟨hy, hyc⟩)
+            exact ⟨w, hw, by rw [hsid]; exact hdz⟩
+          · obtain ⟨y, hy, hdz⟩ := (hviews c).2 w hw
+            obtain ⟨hy1, hy2⟩ := mem_liveOf.mp hy
+            refine ⟨{ y with owner := d }, mem_liveOf.mpr ⟨mem_reown.mpr ⟨y, hy1, ?_⟩, rfl⟩, hdz⟩
+            simp [hy2]
+        · simp only [if_neg hd']
+          by_cases hdc : d = c
+          · subst hdc
+            simp only [if_true]
+            refine ⟨fun x hx => ?_, fun w hw => by cases hw⟩
+            obtain ⟨hx1, hx2⟩ := mem_liveOf.mp hx
+            obtain ⟨y, hy, rfl⟩ := mem_reown.mp hx1
+            by_cases h : y.owner = d
+            · simp [h] at hx2; exact absurd hx2.symm hne
+            · have : (y.owner == d) = false := by simpa using h
+              rw [this] at hx2
+              exact absurd hx2 h
+          · simp only [if_neg hdc]
+            refine viewOK_congr C s.W.reg _ d (s.views d) (fun x => ?_) (hviews d)
+            rw [mem_liveOf, mem_liveOf]
+            constructor
+            · rintro ⟨hx1, hx2⟩
+              obtain ⟨y, hy, rfl⟩ := mem_reown.mp hx1
+              by_cases h : y.owner = c
+              · simp [h] at hx2; exact absurd hx2.symm hd'
+              · have : (y.owner == c) = false := by simpa using h
+                rw [this] at hx2 ⊢
+                exact ⟨hy, hx2⟩
+            · rintro ⟨hx1, hx2⟩
+              refine ⟨mem_reown.mpr ⟨x, hx1, ?_⟩, hx2⟩
+              have : (x.owner == c) = false := by
+                simp only [beq_eq_false_iff_ne]; rw [hx2]; exact hdc
+              rw [this]; rfl
+      · -- one entry per id
+        intro x hx y hy hs
+        obtain ⟨x0, hx0, rfl⟩ := mem_reown.mp hx
+        obtain ⟨y0, hy0, rfl⟩ := mem_reown.mp hy
+        rw [hsid, hsid] at hs
+        rw [hreg.1 x0 hx0 y0 hy0 hs]
+      · intro x hx
+        obtain ⟨x0, hx0, rfl⟩ := mem_reown.mp hx
+        rw [hsid]; exact hreg.2.1 x0 hx0
+      · intro x hx
+        obtain ⟨x0, hx0, rfl⟩ := mem_reown.mp hx
+        have := hreg.2.2 x0 hx0
+        unfold expired at this ⊢
+        rw [hexpi]; exact this
+    · exact ⟨hviews, hreg⟩
+
 end Aux
 
 open Aux
@@ -539,7 +714,7 @@ theorem C27_drain {Wire : Type} [DecidableEq Wire] (C : Codec Wire) (cfg : Cfg) 
     unfold serve
     rw [hr]
     have ho : acceptOpens rq.accept = true := hopt
-    simp [runScript, stepAction, ho, hd, shapes.2.2.2.2.1]
+    simp [runScript, stepAction, stepActionP, ho, hd, shapes.2.2.2.2.1]
 
 /-- **Existing sessions keep serving during drain.** Resolving a presented token does not look at the drain flag, and a
 resumed session is handed to the method (`ctx.session`) exactly as when the worker is serving. -/
@@ -572,8 +747,8 @@ theorem C27_drain_serves {Wire : Type} [DecidableEq Wire] (C : Codec Wire) (cfg 
       rw [hg]
       simp
   refine ⟨by rw [key], ?_, ?_⟩
-  · unfold serve; rw [key]; simp [runScript, stepAction]
-  · unfold serve; rw [key]; simp [runScript, stepAction]
+  · unfold serve; rw [key]; simp [runScript, stepAction, stepActionP]
+  · unfold serve; rw [key]; simp [runScript, stepAction, stepActionP]
 
 /-- **The client-view theorem.** After ANY action script (aborting or swallowing), sent through a view, the client's
 token is exactly the session the registry keeps live for that view: none if none, never an orphan, never stale —
@@ -583,9 +758,8 @@ theorem C27_view {Wire : Type} [DecidableEq Wire] (C : Codec Wire) (cfg : Cfg) (
     (hseal : ∀ a ∈ script, SealFits cfg W.env.now a)
     (hexp : ∀ e ∈ W.reg.entries, (∃ w, v.token = some w ∧ Designates C w e.sid) → expired e W.env.now = false)
     (hok : ViewOK C W.reg c v) :
-    ViewOK C (viewCall C cfg wk W v ident c script swallow).1.reg c (viewCall C cfg wk W v ident c script swallow).2.1 := by
-  have h := view_step C cfg wk W v ident c script swallow True hseal (fun _ => hexp) hok.1 (fun _ => hok.2)
-  exact ⟨h.1, h.2 trivial⟩
+    ViewOK C (viewCall C cfg wk W v ident c script swallow).1.reg c (viewCall C cfg wk W v ident c script swallow).2.1 :=
+  C27_view_aux C cfg wk W v ident c script swallow hseal hexp hok
 
 /-- **Never an orphan**, unconditionally (also when the client's token is stale or expired server-side): every live
 session of the view is the one the client's token designates. -/
@@ -594,5 +768,30 @@ theorem C27_no_orphan {Wire : Type} [DecidableEq Wire] (C : Codec Wire) (cfg : C
     (hseal : ∀ a ∈ script, SealFits cfg W.env.now a) (hno : NoOrphan C W.reg c v) :
     NoOrphan C (viewCall C cfg wk W v ident c script swallow).1.reg c (viewCall C cfg wk W v ident c script swallow).2.1 :=
   (view_step C cfg wk W v ident c script swallow False hseal (fun h => h.elim) hno (fun h => h.elim)).1
+
+/-- **All view sequences.** Start from an empty registry and empty views; let any number of views call any scripts
+(aborting or swallowing), hand their tokens over to new views (`detach()` + `with_session_token(token=…)`), and let the
+operator flip the drain flag, in any order.  After every step every view holds exactly the token of the session the
+registry keeps live for it.  (Side conditions `RunOK`: sealing in range, id space not exhausted; the clock stands still,
+so nothing ends behind a client's back — for that case see `C27_no_orphan`.) -/
+theorem C27_view_history {Wire : Type} [DecidableEq Wire] (C : Codec Wire) (cfg : Cfg) (wk : Nat) (ops : List SysOp) :
+    ∀ (s : Sys Wire), s.W.reg.entries = [] → (∀ c, (s.views c).token = none) → RunOK C cfg wk s ops →
+      ∀ c, ViewOK C (s.run C cfg wk ops).W.reg c ((s.run C cfg wk ops).views c) := by
+  have key : ∀ (ops : List SysOp) (s : Sys Wire), HInv C s → RunOK C cfg wk s ops → HInv C (s.run C cfg wk ops) := by
+    intro ops
+    induction ops with
+    | nil => intro s h _; exact h
+    | cons op ops ih =>
+      intro s h hok
+      exact ih _ (step_HInv C cfg wk s op h hok.1) hok.2
+  intro s hempty hviews hok
+  have h0 : HInv C s := by
+    refine ⟨fun c => ⟨fun x hx => ?_, fun w hw => ?_⟩, fun x hx => ?_, fun x hx => ?_, fun x hx => ?_⟩
+    · rw [mem_liveOf, hempty] at hx; cases hx.1
+    · rw [hviews c] at hw; cases hw
+    · rw [hempty] at hx; cases hx
+    · rw [hempty] at hx; cases hx
+    · rw [hempty] at hx; cases hx
+  exact (key ops s h0 hok).1
 
 end VgiVerif.C27
